@@ -227,6 +227,16 @@ def variants(spec):
     out.append(("nodes -> hash-unordered integers", nmh, base_ids, F.relabel(spec, node_map=nmh, edge_ids=base_ids)))
     nms = {n: "v%s" % (9 - n) for n in nodes}
     out.append(("nodes -> strings (reverse lexical order)", nms, base_ids, F.relabel(spec, node_map=nms, edge_ids=base_ids)))
+    # unequal labels with equal hashes (hash(-1) == hash(-2); integers that differ by 2**61 - 1): anything that keys on a
+    # hash instead of on the label merges them.  All integers, so that they stay mutually orderable.
+    M61 = 2 ** 61 - 1
+    nmc = dict(zip(sorted(nodes), [-1, -2, 5, 5 + M61, 5 + 2 * M61][:len(nodes)]))
+    out.append(("nodes -> hash-colliding labels", nmc, base_ids, F.relabel(spec, node_map=nmc, edge_ids=base_ids)))
+    nmneg = {n: -n for n in nodes}
+    out.append(("nodes -> negative integers", nmneg, base_ids, F.relabel(spec, node_map=nmneg, edge_ids=base_ids)))
+    if m <= 4:
+        eidc = [-1, -2, 3, 3 + M61][:m]
+        out.append(("edge IDs -> hash-colliding IDs", {}, eidc, F.relabel(spec, edge_ids=eidc)))
     # edge id maps
     for perm in itertools.permutations(base_ids):
         if list(perm) == base_ids:
